@@ -129,6 +129,18 @@ func population(cfg *PropCfg, tier string, seed uint64) []ProgSpec {
 		nm = 2
 	}
 	add := func(s *schema.Schema, i int) {
+		if !cfg.TextOnly {
+			// a string constant with a raw line break is accepted by the parser but is
+			// emitted verbatim into Go source, which then does not compile: keep those for
+			// the text-only simulations
+			kept := s.Consts[:0:0]
+			for _, c := range s.Consts {
+				if !strings.Contains(c.Literal, "\n") {
+					kept = append(kept, c)
+				}
+			}
+			s.Consts = kept
+		}
 		id := fmt.Sprintf("p%03d", len(specs))
 		masks := map[int]bool{}
 		var ms []int
@@ -154,12 +166,15 @@ func population(cfg *PropCfg, tier string, seed uint64) []ProgSpec {
 		if s.HasLib() {
 			sp.Bop = s.PrintApp("lib.bop") // informative only: the per-mask files are written at build time
 		}
-		if cfg.Evolve && !s.HasLib() {
+		if cfg.Evolve {
 			old := s
 			nw := schema.Evolve(old, r.Fork("evolve"))
 			if nw != nil {
 				sp.Schema, sp.Bop = nw.New, nw.New.Print()
 				sp.Old, sp.OldBop = nw.Old, nw.Old.Print()
+				if s.HasLib() {
+					sp.Bop, sp.OldBop = nw.New.PrintApp("lib.bop"), nw.Old.PrintApp("lib.bop")
+				}
 			}
 		}
 		specs = append(specs, sp)
